@@ -137,6 +137,20 @@ def main():
                     out = []
                     flat(node, obj, out)
                     print("D 0 0 %s" % words_hex(out))
+            elif tok[0] == "M":
+                cls = cls_of(node)
+                out = ["M", "extent=%d" % cls._EXTENT_BYTES_]
+                if hasattr(cls, "_FIXED_PORT_ID_"):
+                    out.append("fixed_port_id=%d" % cls._FIXED_PORT_ID_)
+                for name, pyname, kind in node.get("consts", []):
+                    v = getattr(cls, pyname)
+                    if kind == "b":
+                        out.append("const.%s=b:%d" % (name, 1 if v is True else (0 if v is False else 99)))
+                    elif kind == "f":
+                        out.append("const.%s=f:%s" % (name, float(v).hex()))
+                    else:
+                        out.append("const.%s=%s:%d" % (name, kind, v))
+                print(" ".join(out))
             else:
                 print("H bad command")
         except Exception as e:  # one line per command, always
